@@ -29,8 +29,10 @@ THEOREMS = [NS + t for t in (
           'keyInt_eq_stripeOf',          # C17's key is C07's stripe
           'stripe_slice',                # stripe s of C17's output is starts[s]:starts[s+1] and holds members s
           'stable_perm',                 # C17's output is a permutation of the input
+          'tsc_parallel_wrap_eq_serial',  # wrap=True: _wrap_inplace first, particles up to one box outside, every schedule
+          'wrapped_partOK',              # C06's wrap_inplace_spec discharges the per-particle hypothesis of the link theorem
       )]
-LEAN_MODULES = ['AbacusVerif.Props.C07', 'AbacusVerif.Props.C07Link']
+LEAN_MODULES = ['AbacusVerif.Props.C07', 'AbacusVerif.Props.C07Link', 'AbacusVerif.Props.C07Wrap']
 DRIVER = 'drv_c07'
 RULE = ('(a) exhaustive decision table: every (n1d <= 64 [160 thorough], nthread 0..24 [32], npartition in {None, 0, -1} U 1..n1d+1) '
         'through the real tsc_parallel with _tsc_parallel replaced by a recorder, against choosePartition; '
